@@ -80,3 +80,52 @@ def funcs_file(table):
 
 def is_ascii(s):
     return all(ord(c) < 128 for c in s)
+
+
+# ----------------------------------------------------------------------------- bound form / substituted form, as two runs
+TWINS = [
+    # (options with a --set binding, the same options with the binding written out)
+    (["--set=pv=2", "--split-by=(take .l :pv)"], ["--split-by=(take .l 2)"]),
+    (["--set=@pm=.lo", "--split-by=@pm", "--select=.v =v"], ["--split-by=.lo", "--select=.v =v"]),
+    (["--set=pv=[1,2]", "--split-by=:pv", "--select=(+ . ^.n) =x"], ["--split-by=[1,2]", "--select=(+ . ^.n) =x"]),
+    (["--set=@pm=(map .l (+ . 1))", "--split-by=(@ \"pm\")"], ["--split-by=(map .l (+ . 1))"]),
+    (["--set=pv=1", "--filter=(> .n :pv)"], ["--filter=(> .n 1)"]),
+    (["--set=@pm=(number? .n)", "--filter=@pm", "--select=.n =n"], ["--filter=(number? .n)", "--select=.n =n"]),
+    (["--set=@pm=.n", "--sort-by=@pm", "--select=.n =n", "--select=.s =s"], ["--sort-by=.n", "--select=.n =n", "--select=.s =s"]),
+    (["--set=pv=\"g\"", "--group-by=(concat :pv .s)"], ["--group-by=(concat \"g\" .s)"]),
+    (["--set=pv=3", "--select=(+ .n :pv) =x", "--select=(map .l (+ . :pv)) =y"], ["--select=(+ .n 3) =x", "--select=(map .l (+ . 3)) =y"]),
+    # a variable and a macro may have the same name (:n and @n are different things)
+    (["--set=n=100", "--set=@n=(+ .n :n)", "--select=@n =x"], ["--select=(+ .n 100) =x"]),
+    (["--set=@k=(size .l)", "--set=k=7", "--select=(+ @k :k) =x", "--filter=(>= :k @k)"], ["--select=(+ (size .l) 7) =x", "--filter=(>= 7 (size .l))"]),
+    # a macro that uses a variable bound where it is expanded
+    (["--set=@w=(concat :p .s)", "--set=p=\"<\"", "--select=(concat @w (set \"p\" \">\" @w)) =x"], ["--select=(concat (concat \"<\" .s) (concat \">\" .s)) =x"]),
+    (["--set=@m=(+ :x .n)", "--select=(set \"x\" 10 @m) =x", "--select=(set \"x\" 10 (map .l (+ . @m))) =y"],
+     ["--select=(+ 10 .n) =x", "--select=(map .l (+ . (+ 10 .n))) =y"]),        # a macro is expanded where it is used: `.` is the element there
+    (["--set=@m=(size .l)", "--split-by=.l", "--select=(set \"e\" . (+ :e ^.n)) =x", "--filter=(define \"q\" 1 (>= (+ @q .) 0))"],
+     ["--split-by=.l", "--select=(+ . ^.n) =x", "--filter=(>= (+ 1 .) 0)"]),
+]
+
+
+def twin_records(jvh, rnd, n, first_case):
+    """n pairs of runs (bound form, written-out form) on the same typed inputs; returns (records, descriptions, number of runs): their outputs must
+    be the same bytes (`same` records of Trace_Expr)."""
+    from vcommon import run_cases
+    cases, meta = [], []
+    for i in range(n):
+        a, b = TWINS[i % len(TWINS)]
+        rows = [X.typed_input(rnd) for _ in range(rnd.choice([1, 2, 3, 5]))]
+        data = b"".join(G.canonical(r) + b"\n" for r in rows)
+        for argv in (a, b):
+            cases.append({"id": len(cases), "argv": list(argv), "stdin": hexs(data)})
+        meta.append({"kind": "twin", "bound": a, "written_out": b, "input": data.decode("utf-8")[:600]})
+    obs = run_cases(jvh, cases)
+    recs, descs = [], []
+    for i, m in enumerate(meta):
+        oa, ob = obs[2 * i], obs[2 * i + 1]
+        if ob["res"] != "ok":
+            raise ToolError("a written-out twin configuration was rejected (generator error): %s: %s" % (m["written_out"], ob.get("msg")))
+        m["observed"] = [{"res": o["res"], "msg": o.get("msg", ""), "stdout": bytes.fromhex(o["out"]).decode("utf-8", "replace")[:400]} for o in (oa, ob)]
+        recs.append({"case": first_case + i, "kind": "same",
+                     "vals": [[1 if oa["res"] == "ok" else 0] + list(bytes.fromhex(oa["out"])), [1 if ob["res"] == "ok" else 0] + list(bytes.fromhex(ob["out"]))]})
+        descs.append(m)
+    return recs, descs, len(cases)
